@@ -31,7 +31,8 @@ _re_ident = re.compile(r'''(?x)
 _re_ident_or_num = re.compile(r'''(?x)
     [^\W\d]\w*  # alphanumeric identifier
     |
-    ([1-9]\d* | 0)  # purely integer identifier
+    # purely integer identifier: ASCII digits, fits in 64 bits
+    ([1-9][0-9]{0,18} | 0)
 ''')
 
 
